@@ -222,13 +222,16 @@ PROPS = {
     "C08": dict(
         flavour="asan",
         level="exploration",
-        harnesses=["c08_field"],
-        quick=dict(shards=16, cases=2500, min_nontrivial=1000),
-        thorough=dict(shards=16, cases=150000, fuzz_s=900, fuzz_jobs=16, fuzz_max_len=704, min_nontrivial=1000),
+        harnesses=["c08_field", "c08_alongstep"],
+        quick=dict(shards=16, cases=2500, min_nontrivial=1000, per_harness={"c08_alongstep": dict(cases=120)}),
+        thorough=dict(shards=16, cases=150000, fuzz_s=900, fuzz_jobs=16, fuzz_max_len=704, min_nontrivial=1000,
+                      fuzz=["c08_field"], per_harness={"c08_alongstep": dict(cases=6000)}),
         assumptions=COMMON_ASSUME + [
             "helix tolerance = 10*epsilon_rel_max per integration step + phase error of the un-renormalised ODE momentum + "
             "delta_intersection/minimum_step terms (error model in harness/notes/C08.md); RZ-map fields get oracles 1-3 only",
             "documented FieldPropagator caveats are respected: bump when stuck on a boundary is counted, not judged",
+            "c08_alongstep (PropagationApplier inside the stepping loop): displacement along B = length x pitch cosine is judged "
+            "only for gyroradius > 0.05 cm and |pitch cosine| > 0.05, tolerance 1 % of the length + 1e-4 cm",
         ],
     ),
     "C11": dict(
